@@ -64,6 +64,23 @@ fn tree(i: usize, chunk: usize, block: usize) -> Vec<(String, usize)> {
         2 => vec![("t/é☠ dir/spaced name.txt".into(), 33), ("t/é☠ dir/ü".into(), 0), ("t/plain".into(), 2 * chunk + 7)],
         3 => vec![("t/blk-1".into(), block - 1), ("t/blk".into(), block), ("t/blk+1".into(), block + 1)],
         4 => vec![("t/a".into(), 3 * chunk), ("t/b".into(), 7), ("t/c/d/e/f".into(), chunk + 16)],
+        // path lengths around the 100-byte name field of a tar header, and a long one
+        5 => [99usize, 100, 101, 156, 260]
+            .iter()
+            .map(|n| {
+                let mut p = String::from("t");
+                let mut k = 0;
+                while p.len() + 12 < *n {
+                    p.push_str(&format!("/d{k:02}-é-dir"));
+                    k += 1;
+                }
+                p.push('/');
+                while p.len() < *n {
+                    p.push('f');
+                }
+                (p, 9 + *n % 7)
+            })
+            .collect(),
         _ => vec![("t/big".into(), 2 * block + chunk + 3), ("t/tiny".into(), 2)],
     }
 }
@@ -361,7 +378,7 @@ fn exec(j: &Job, rep: &mut Report) -> Option<(Value, String)> {
 pub fn jobs(thorough: bool) -> Vec<Job> {
     let mut v = Vec::new();
     let mut n = 0usize;
-    for tree in 0..6 {
+    for tree in 0..7 {
         for lay in Lay::ALL {
             let levels: Vec<u32> = if !lay.compressed() { vec![5] } else if thorough { vec![0, 5, 11] } else { vec![[0u32, 5, 11][n % 3]] };
             for level in levels {
@@ -405,7 +422,7 @@ pub fn run(started: Instant) -> i32 {
         rep,
         Meta {
             level: "exploration",
-            rule: "6 generated file trees (empty files, nested directories, unicode and spaces, sizes around the chunk and block sizes) x layer options {none, compress, encrypt, both, default} x levels x key sets, with the mlar binary built from the working tree (scaled constants; plus trees with files of 128 KiB+-1 and 4 MiB+-1 on the production-constant binary). Pipeline per job: keygen; create (file list or directory recursion); then list, list -vv (humansize + SHA-256), cat of every file, extract (linear and --glob '*', no extra files), extract of one name, to-tar (entries parsed with the tar crate); convert to each other layer/key choice and repair of the intact archive, each followed by the same readers; create|convert|repair chains; negative runs (wrong key, missing key, key for an unencrypted archive) for list/extract/cat/to-tar/convert(/repair) must exit non-zero and leave no output content. transitions = mlar invocations".to_string(),
+            rule: "7 generated file trees (empty files, nested directories, unicode and spaces, sizes around the chunk and block sizes, path lengths 99/100/101/156/260 bytes) x layer options {none, compress, encrypt, both, default} x levels x key sets, with the mlar binary built from the working tree (scaled constants; plus trees with files of 128 KiB+-1 and 4 MiB+-1 on the production-constant binary). Pipeline per job: keygen; create (file list or directory recursion); then list, list -vv (humansize + SHA-256), cat of every file, extract (linear and --glob '*', no extra files), extract of one name, to-tar (entries parsed with the tar crate); convert to each other layer/key choice and repair of the intact archive, each followed by the same readers; create|convert|repair chains; negative runs (wrong key, missing key, key for an unencrypted archive) for list/extract/cat/to-tar/convert(/repair) must exit non-zero and leave no output content. transitions = mlar invocations".to_string(),
             exhaustive: true,
             bounds: json!({"jobs": js.len()}),
             assumptions: vec!["human-readable sizes are formatted with the same humansize crate as the tool".to_string()],
